@@ -84,13 +84,12 @@ func checkC05(r *Run) {
 		r.Lost("R2", "typed unknown-identifier tolerance in the licensed evaluators")
 	}
 	// a helper of the licensed evaluators ("evaluate this operand; an unknown identifier is nil")
-	// carries the licence of its callers: it is licensed when it is an unexported function that is
-	// not itself the evaluator of a node type and every use of it in the module is a static call from
-	// a licensed function. (For call sites in the infix evaluator the operator set is decided on the
+	// carries the licence of its callers: it is licensed when it is an unexported function and every
+	// use of it in the module is a static call from a licensed function. (For call sites in the infix evaluator the operator set is decided on the
 	// paths of the infix evaluator with the helper walked in line -- toleranceOperatorSetSSA.)
 	cand := map[*types.Func]bool{}
 	for _, t := range tols {
-		if !licensed[t.decl.Obj] && !t.anon && !t.decl.Obj.Exported() && t.decl.Rel == "" && !c05IsNodeEvaluator(w, t.decl) {
+		if !licensed[t.decl.Obj] && !t.anon && !t.decl.Obj.Exported() && t.decl.Rel == "" {
 			cand[t.decl.Obj] = true
 		}
 	}
@@ -329,12 +328,6 @@ type tolRecord struct {
 	pos       string
 	decl      *FuncInfo
 	anon      bool
-}
-
-// c05IsNodeEvaluator: f is the evaluator of some node type (its single parameter is a node).
-func c05IsNodeEvaluator(w *World, f *FuncInfo) bool {
-	fn := w.SSAFunc(f)
-	return fn != nil && w.isCompilerMethod(fn) && w.isNodeEvaluator(fn)
 }
 
 func errorFlow(r *Run, fn *ssa.Function, decl *FuncInfo) (tols []tolRecord) {
